@@ -7,6 +7,9 @@ import (
 	"strings"
 	"time"
 
+	"seata.apache.org/seata-go/pkg/datasource/sql/exec/at"
+	"seata.apache.org/seata-go/pkg/rm"
+
 	"verifharness/memdb"
 )
 
@@ -16,6 +19,11 @@ import (
 // (cases c16-w*)
 
 func runC16WaitOptions(c *Ctx, w *ATWorld) {
+	// the lock retry settings as an application would have them (shipped: 10 times, 30 s apart): an error of the
+	// database is not a reason to send the statement again
+	oldLock := at.LockConfig
+	at.LockConfig = rm.LockConfig{RetryTimes: 4, RetryInterval: 400 * time.Millisecond}
+	defer func() { at.LockConfig = oldLock }()
 	n := 0
 	for _, suffix := range []string{" NOWAIT", " SKIP LOCKED", " /* matches nothing */"} {
 		for _, explicit := range []bool{false, true} {
